@@ -123,6 +123,12 @@ def run_groups(groups, envs, exe, wd, checks, res, extra):
                 order = vec["ord"]
                 cases.append((cid, root, "D", order, bytes(vec["inp"]).hex()))
                 meta[cid] = (g, vec, order, bytes(vec["inp"]))
+                if vi % 2:
+                    # ... and once more into an object that still holds what the previous decode of this kind
+                    # left in it (an accepted value or the remains of a refused input): same judgments
+                    cidr = cid + ".R"
+                    cases.append((cidr, root, "R", order, bytes(vec["inp"]).hex()))
+                    meta[cidr] = (g, vec, order, bytes(vec["inp"]))
                 continue
             for order, data in (("L", vec["outL"]), ("B", vec["outB"]), ("N", vec["outL"])):
                 cid = "%s.%d.%s" % (g["gid"], vi, order)
